@@ -203,7 +203,9 @@ def opKind : MOp → String
   | .build => "build"
   | .restart _ => "restart"
 
-def handleSeq (mS preS opsS : String) (obs : List String) : Answer :=
+/-- `sigPrefix`: the property and case kind the signatures name; `C05` runs the same histories on rolling
+appenders that never rotate (`seqx`, `Driver/C05.lean`) with `C05/seqx-` -/
+def handleSeq (mS preS opsS : String) (obs : List String) (sigPrefix : String := "C04/seq-") : Answer :=
   match decMode mS, decOpt decBytesBig preS, mapM? decOp (decList ',' opsS), obs with
   | some m, some pre, some ops, [implObs] =>
     if !validOps 1 ops then badCase "appender index" else
@@ -220,7 +222,7 @@ def handleSeq (mS preS opsS : String) (obs : List String) : Answer :=
         -- input class of the former finding: truncate mode, an append that follows another writer /
         -- appender / truncation of the path (the descriptor had a private offset)
         let cls := if m = .truncate ∧ kind = "append" ∧ (ops.take k).any MOp.multi then "truncate-private-offset" else modeName ++ "-" ++ kind
-        "FAIL:file after op " ++ toString k ++ " is not what the last open/truncation left ++ whole acknowledged records and foreign appends in call order;sig=C04/seq-" ++ cls
+        "FAIL:file after op " ++ toString k ++ " is not what the last open/truncation left ++ whole acknowledged records and foreign appends in call order;sig=" ++ sigPrefix ++ cls
     let tags := dedup ([modeName, if pre.isSome then "pre-existing" else "fresh"] ++
       (if m = .truncate ∧ ops.any MOp.multi then ["truncate-mode-shared-path"] else []) ++
       scriptTags (decList ',' opsS) ++ opTags m s0 ops)
